@@ -249,15 +249,28 @@ Proof.
   rewrite (grows_fam s s' r (zo_wf s B) (zo_kind s B) G O). exact EF.
 Qed.
 
-(** the cache invariant in a grown table, for a cache that has lost (at least)
-    its Restrict entries *)
-Lemma zcacheokb_grows : forall C (cget : C -> N -> list ref -> list nat -> option ref) s s' c c',
+Lemma zcube_grows : forall s s' M lvl vars, grows s s' -> nlevels s' = nlevels s ->
+  ZCube s M lvl vars -> ZCube s' M lvl vars.
+Proof.
+  intros s s' M lvl vars G Hn Hc. induction Hc.
+  - apply ZC_term; [unfold term_val in *; rewrite (gr_terms _ _ G); assumption | rewrite Hn; assumption].
+  - eapply ZC_dc; eauto. apply (gr_nodes _ _ G). assumption.
+  - eapply ZC_pos; eauto; [apply (gr_nodes _ _ G); assumption|].
+    destruct (is_empty_b_true s lo H2) as [t [-> Et]].
+    unfold is_empty_b, is_term_with, term_val in *. rewrite (gr_terms _ _ G), Et. reflexivity.
+Qed.
+
+(** the cache invariant in a grown table: the new view [cget'] of the cache serves
+    only what the old view [cget] served, and Restrict entries (which depend on the
+    number of levels) only if the number of levels is the same *)
+Lemma zcacheokb_grows : forall C (cget cget' : C -> N -> list ref -> list nat -> option ref) s s' c c',
   ZbddOK s -> grows s s' ->
   (forall var vl, nth_error (s_v2l s) var = Some vl -> nth_error (s_v2l s') var = Some vl) ->
-  (forall k a m r, cget c' k a m = Some r -> cget c k a m = Some r /\ k <> zcode_restrict) ->
-  ZCacheOKB C cget s c -> ZCacheOKB C cget s' c'.
+  (forall k a m r, cget' c' k a m = Some r ->
+     cget c k a m = Some r /\ (k = zcode_restrict -> nlevels s' = nlevels s)) ->
+  ZCacheOKB C cget s c -> ZCacheOKB C cget' s' c'.
 Proof.
-  intros C cget s s' c c' B G Hv Hcav O code args nums r E.
+  intros C cget cget' s s' c c' B G Hv Hcav O code args nums r E.
   destruct (Hcav _ _ _ _ E) as [E0 Hne]. destruct (O _ _ _ _ E0) as [A A']. split.
   - unfold zentry_ok in *. destruct args as [|f [|g [|x rest]]]; auto.
     + destruct nums as [|var [|y rest]]; auto.
@@ -267,9 +280,14 @@ Proof.
       intros o Hc. destruct (A o Hc) as [P [Q [D1 [D2 D3]]]]. exists P, Q.
       split; [|split]; eapply zden_grows; eauto.
   - unfold zentry_x in *. destruct args as [|f [|g [|h [|x rest]]]]; auto; destruct nums as [|v rest']; auto.
-    + destruct A' as [H7 _]. split; [|intros Hc; contradiction].
-      intros Hc. destruct (H7 Hc) as (P & Q & DF & DG & DR). exists P, Q.
-      split; [|split]; eapply zden_grows; eauto.
+    + destruct A' as [H7 H3]. split.
+      * intros Hc. destruct (H7 Hc) as (P & Q & DF & DG & DR). exists P, Q.
+        split; [|split]; eapply zden_grows; eauto.
+      * intros Hc. pose proof (Hne Hc) as Hn.
+        destruct (H3 Hc) as (P & id & nd & M & DF & -> & En & Hcu & DR).
+        exists P, id, nd, M. split; [eapply zden_grows; eauto|]. split; [reflexivity|].
+        split; [apply (gr_nodes _ _ G); exact En|]. split; [apply (zcube_grows s s' _ _ _ G Hn Hcu)|].
+        rewrite Hn. eapply zden_grows; eauto.
     + intros Hc. destruct (A' Hc) as (P & Q & R & DF & DG & DH & DR). exists P, Q, R.
       split; [|split; [|split]]; eapply zden_grows; eauto.
 Qed.
